@@ -739,7 +739,7 @@ func (m *Machine) builtinTyped(b *ssa.Builtin, c *ssa.CallCommon, args []Value) 
 			return nil
 		case Ptr:
 			if d := m.mapData(v, true); d != nil {
-				d.Entries = nil
+				d.Entries, d.Idx, d.NonIdx = nil, nil, 0
 			}
 			return nil
 		}
